@@ -8,13 +8,6 @@ Import ListNotations.
 Open Scope Z_scope.
 
 (* ---- series.py ------------------------------------------------------------------------------------- *)
-Theorem bridge_check_is_univariate y :
-  gen_check_is_univariate y =
-  if (match cont (sd y) with CFrame | CArray2 => false | _ => true end) then Ok tt else Err.
-Proof.
-  unfold gen_check_is_univariate, s_isinstance, s_ndim. destruct (cont (sd y)); reflexivity.
-Qed.
-
 (* case analysis on every test the regenerated code makes, whatever comparison it is written with *)
 Ltac split_tests :=
   cbv zeta;
@@ -43,8 +36,10 @@ Qed.
 Theorem bridge_check_series s u e np eit :
   gen_check_series s u e np eit = if series_ok u e np eit s then Ok s else Err.
 Proof.
-  unfold gen_check_series, series_ok. rewrite bridge_check_is_univariate, bridge_check_time_index.
-  unfold s_isinstance, tys_without.
+  (* the univariate test is part of the regenerated body, wherever the source keeps it (an own
+     private helper - inlined by the translator - or inline) *)
+  unfold gen_check_series, series_ok. rewrite !bridge_check_time_index.
+  unfold s_isinstance, s_ndim, tys_without.
   destruct (cont (sd s)); destruct np; destruct u; cbn; try reflexivity;
     destruct (time_index_ok e eit (s_index s)); reflexivity.
 Qed.
